@@ -9,8 +9,13 @@ package main
 import (
 	"io"
 	"math/rand"
+	"net"
+	"sort"
 	"strconv"
 	"strings"
+	"time"
+
+	"github.com/valyala/fasthttp"
 
 	"verif/harness/c09/hd"
 	"verif/harness/hlib"
@@ -24,6 +29,63 @@ type desc struct {
 	S1    hlib.B `json:"s1"`
 	S2    hlib.B `json:"s2"`
 	Gen   string `json:"gen,omitempty"`
+	// idle cases: H is delivered by the schedule Chunks (concat = H), then the connection is idle
+	Idle   string   `json:"idle,omitempty"` // "" | "read" | "serve"
+	Chunks []hlib.B `json:"chunks,omitempty"`
+}
+
+// ---------- delivery schedules ----------
+
+func split(h []byte, cuts ...int) []hlib.B {
+	var out []hlib.B
+	prev := 0
+	for _, c := range cuts {
+		if c > prev && c < len(h) {
+			out = append(out, append(hlib.B(nil), h[prev:c]...))
+			prev = c
+		}
+	}
+	return append(out, append(hlib.B(nil), h[prev:]...))
+}
+
+// tailSplits: every split point among the last 4 bytes, alone and combined, plus byte-wise delivery of the tail.
+func tailSplits(h []byte) [][]hlib.B {
+	n := len(h)
+	out := [][]hlib.B{split(h)}
+	for j := 1; j <= 4 && j < n; j++ {
+		out = append(out, split(h, n-j))
+		var cuts []int
+		for k := n - j; k < n; k++ {
+			cuts = append(cuts, k)
+		}
+		out = append(out, split(h, cuts...)) // the last j bytes one by one
+		if j >= 2 {
+			out = append(out, split(h, n-j, n-1)) // ... then the very last byte alone
+		}
+	}
+	if n <= 40 { // byte-wise
+		var cuts []int
+		for k := 1; k < n; k++ {
+			cuts = append(cuts, k)
+		}
+		out = append(out, split(h, cuts...))
+	}
+	return out
+}
+
+func randomSplit(r *rand.Rand, h []byte) []hlib.B {
+	var cuts []int
+	for k := 1 + r.Intn(4); k > 0 && len(h) > 1; k-- {
+		cuts = append(cuts, 1+r.Intn(len(h)-1))
+	}
+	sort.Ints(cuts)
+	return split(h, cuts...)
+}
+
+var serveHeads = []string{
+	"GET / HTTP/1.1\r\nHost: h\r\n\r\n", "GET /x HTTP/1.1\r\nHost: h\r\nX-A: b\r\n c\r\n\r\n", "GET / HTTP/1.0\r\n\r\n",
+	"GET / HTTP/1.1\r\n\r\n", "GET / HTTP/1.1\nHost: h\n\r\n", "GET / HTTP/1.1\r\nHost: h\r\n\n", "GET / HTTP/1.1\nHost: h\n\n",
+	"G@T / HTTP/1.1\r\nHost: h\r\n\r\n", "GET / HTTP/1.1\r\nHost: h\r\nNoColon\r\n\r\n", "GET / HTTP/1.1\r\nHost: h\r\n", "GET / HT",
 }
 
 // ---------- grammar ----------
@@ -157,6 +219,35 @@ func cfgOf(r *rand.Rand) hd.Cfg {
 }
 
 func gen(r *rand.Rand, i int) desc {
+	if r.Intn(4) == 0 {
+		d := genHead(r, i)
+		d.S1, d.S2 = nil, nil
+		if len(d.H) == 0 {
+			return d
+		}
+		switch r.Intn(8) {
+		case 0:
+			if !d.Resp {
+				d.Idle, d.Cfg, d.BSize = "serve", hd.Cfg{}, 4096
+				d.H = []byte(hlib.Pick(r, serveHeads))
+			} else {
+				d.Idle = "read"
+			}
+		default:
+			d.Idle = "read"
+		}
+		if r.Intn(2) == 0 {
+			d.Chunks = hlib.Pick(r, tailSplits(d.H))
+		} else {
+			d.Chunks = randomSplit(r, d.H)
+		}
+		d.Gen = "idle-" + d.Gen
+		return d
+	}
+	return genHead(r, i)
+}
+
+func genHead(r *rand.Rand, i int) desc {
 	d := desc{Resp: r.Intn(5) < 2, Cfg: cfgOf(r), BSize: 4096}
 	firsts, pool := reqLines, reqHeaders
 	if d.Resp {
@@ -203,6 +294,26 @@ func gen(r *rand.Rand, i int) desc {
 
 func corpus() []desc {
 	var c []desc
+	// delivery schedules: every split of the last 4 bytes, for CRLF heads, mixed line ends and the bare-LF witnesses
+	for _, h := range []string{"GET / HTTP/1.1\r\nHost: h\r\n\r\n", "POST /p HTTP/1.1\r\nHost: h\r\nContent-Length: 3\r\nX: a\r\n b\r\n\r\n",
+		"GET / HTTP/1.0\r\n\r\n", "GET / HTTP/1.1\nHost: h\n\r\n", "GET / HTTP/1.1\r\nHost: h\r\n\n", "GET / HTTP/1.1\nHost: h\n\n",
+		"\r\nGET / HTTP/1.1\r\nHost: h\r\n\r\n", "GET / HTTP/1.1\r\nHost h\r\n\r\n", "GET / HTTP/1.1\r\nHost: h\r\n"} {
+		for _, sp := range tailSplits([]byte(h)) {
+			c = append(c, desc{Idle: "read", BSize: 4096, H: []byte(h), Chunks: sp, Gen: "idle-corpus"})
+			c = append(c, desc{Idle: "read", BSize: 16 + len(h)%7, H: []byte(h), Chunks: sp, Gen: "idle-smallbuf"})
+		}
+	}
+	for _, h := range []string{"HTTP/1.1 200 OK\r\nContent-Length: 3\r\n\r\n", "HTTP/1.1 204 No Content\r\n\r\n", "HTTP/1.1 200 OK\nServer: s\n\r\n",
+		"HTTP/1.1 200 OK\nContent-Length: 3\n\n", "HTTP/1.1 200 OK\r\nContent-Length: 3\r\n\n", "HTTP/1.1 20 OK\r\n\r\n", "HTTP/1.1 200 OK\r\nA: b\r\n"} {
+		for _, sp := range tailSplits([]byte(h)) {
+			c = append(c, desc{Resp: true, Idle: "read", BSize: 4096, H: []byte(h), Chunks: sp, Gen: "idle-corpus"})
+		}
+	}
+	for _, h := range serveHeads {
+		for _, sp := range tailSplits([]byte(h)) {
+			c = append(c, desc{Idle: "serve", BSize: 4096, H: []byte(h), Chunks: sp, Gen: "idle-serve"})
+		}
+	}
 	add := func(resp bool, cfg hd.Cfg, h, s1, s2 string) {
 		c = append(c, desc{Resp: resp, Cfg: cfg, BSize: 4096, H: []byte(h), S1: []byte(s1), S2: []byte(s2), Gen: "corpus"})
 	}
@@ -295,7 +406,94 @@ func corpus() []desc {
 	return c
 }
 
+// serveIdle drives Server.ServeConn over the schedule; answered = something was written before a Read was
+// attempted on the idle connection.
+type idleConn struct {
+	src     *hd.Src
+	wrote   bool
+	seen    bool // a Read on the idle connection has been attempted
+	atBlock bool // wrote, at that moment
+}
+
+func (c *idleConn) Read(p []byte) (int, error) {
+	n, err := c.src.Read(p)
+	if c.src.Blocked && !c.seen {
+		c.seen, c.atBlock = true, c.wrote
+	}
+	return n, err
+}
+
+func (c *idleConn) Write(p []byte) (int, error) {
+	c.wrote = true
+	return len(p), nil
+}
+
+func (c *idleConn) Close() error                       { return nil }
+func (c *idleConn) LocalAddr() net.Addr                { return &net.TCPAddr{IP: net.IPv4(127, 0, 0, 1), Port: 80} }
+func (c *idleConn) RemoteAddr() net.Addr               { return &net.TCPAddr{IP: net.IPv4(127, 0, 0, 1), Port: 1234} }
+func (c *idleConn) SetDeadline(t time.Time) error      { return nil }
+func (c *idleConn) SetReadDeadline(t time.Time) error  { return nil }
+func (c *idleConn) SetWriteDeadline(t time.Time) error { return nil }
+
+func serveIdle(chunks [][]byte) (answered bool, panicked string) {
+	src := &hd.Src{UseSch: true}
+	for _, ch := range chunks {
+		src.Sched = append(src.Sched, append([]byte(nil), ch...))
+	}
+	c := &idleConn{src: src}
+	s := &fasthttp.Server{Handler: func(ctx *fasthttp.RequestCtx) { ctx.SetBodyString("ok") }, Logger: nopLogger{}}
+	panicked = hlib.Protect(func() { _ = s.ServeConn(c) })
+	if c.seen {
+		return c.atBlock, panicked
+	}
+	return c.wrote, panicked
+}
+
+type nopLogger struct{}
+
+func (nopLogger) Printf(string, ...any) {}
+
+func runIdle(d desc) hlib.Case {
+	if d.BSize < 16 {
+		d.BSize = 16
+	}
+	chunks := make([][]byte, len(d.Chunks))
+	items := make([]string, len(d.Chunks))
+	var h []byte
+	for i, ch := range d.Chunks {
+		chunks[i] = ch
+		items[i] = hlib.Hex(ch)
+		h = append(h, ch...)
+	}
+	c := hlib.Case{Kind: "idle:" + d.Idle + ":" + d.Gen, Size: len(h)}
+	complete := hd.HeadLen(h) == len(h) && len(h) > 0
+	sig := "/complete=" + strconv.FormatBool(complete) + "/guard=" + strconv.FormatBool(hd.CRLFTerminated(h)) + "/chunks=" + strconv.Itoa(min(len(chunks), 6))
+	if d.Idle == "serve" {
+		ans, p := serveIdle(chunks)
+		if p != "" {
+			ans = false
+		}
+		c.Coq = hlib.App("CServeIdle", hlib.List(items), hlib.Bool(ans))
+		c.Sig = "serveidle/" + strconv.FormatBool(ans) + sig
+		return c
+	}
+	if d.Resp {
+		o := hd.ReadRespIdle(d.Cfg, d.BSize, chunks)
+		c.Coq = hlib.App("CRespIdle", d.Cfg.Coq(), hlib.Nat(d.BSize), hlib.List(items), o.Coq)
+		c.Sig = "respidle/" + o.Class + sig
+		c.Key = hd.Key(true, h)
+		return c
+	}
+	o := hd.ReadReqIdle(d.Cfg, d.BSize, chunks)
+	c.Coq = hlib.App("CReqIdle", d.Cfg.Coq(), hlib.Nat(d.BSize), hlib.List(items), o.Coq)
+	c.Sig = "reqidle/" + o.Class + sig
+	return c
+}
+
 func run(d desc) hlib.Case {
+	if d.Idle != "" {
+		return runIdle(d)
+	}
 	if d.BSize < 16 {
 		d.BSize = 16
 	}
